@@ -321,6 +321,7 @@ void verif_width_iter(const char *point, int changes, bool first)
    }
    size_t n   = 0;
    size_t nlc = 0;
+   size_t ol  = 0;
 
    for (Chunk *pc = Chunk::GetHead(); pc->IsNotNullChunk(); pc = pc->GetNext())
    {
@@ -330,9 +331,14 @@ void verif_width_iter(const char *point, int changes, bool first)
       {
          nlc++;
       }
+
+      if (pc->TestFlags(PCF_ONE_LINER))
+      {
+         ol++;
+      }
    }
 
-   fprintf(fp, "WL point=%s changes=%d nlc=%zu n=%zu first=%d\n", point, changes, nlc, n, first ? 1 : 0);
+   fprintf(fp, "WL point=%s changes=%d nlc=%zu n=%zu ol=%zu first=%d\n", point, changes, nlc, n, ol, first ? 1 : 0);
    fflush(fp);
 }
 
